@@ -159,7 +159,7 @@ func c17Config(r *verifh.Rand) c17Gen {
 		for j := 0; j < np; j++ {
 			b.WriteString("  [[interfaces.prefix]]\n")
 			p := pool[j]
-			if !wild && r.Chance(35) {
+			if !wild && r.Chance(22) {
 				wild = true
 				g.kinds["prefix-wildcard"] = true
 				if r.Bool() {
@@ -198,11 +198,13 @@ func c17Config(r *verifh.Rand) c17Gen {
 		rpool := append([]string(nil), c17Routes...)
 		verifh.Shuffle(r, rpool)
 		nr := r.Intn(4)
+		rwild := false
 		for j := 0; j < nr; j++ {
 			b.WriteString("  [[interfaces.route]]\n")
 			p := rpool[j]
-			if r.Chance(30) {
+			if !rwild && r.Chance(30) || rwild && r.Chance(8) {
 				p = "::/0"
+				rwild = true
 				g.kinds["route-wildcard"] = true
 			} else {
 				g.kinds["route"] = true
@@ -225,15 +227,15 @@ func c17Config(r *verifh.Rand) c17Gen {
 			b.WriteString("  [[interfaces.rdnss]]\n")
 			var servers string
 			switch {
-			case j > 0 && r.Chance(30):
+			case j > 0 && r.Chance(10):
 				servers = prevServers // same label values as the previous stanza
-			case r.Chance(20):
+			case r.Chance(12):
 				servers = "" // key absent: the :: wildcard
 			default:
 				sp := append([]string(nil), c17Servers...)
 				verifh.Shuffle(r, sp)
 				sp = sp[:1+r.Intn(3)]
-				if r.Chance(30) {
+				if r.Chance(15) {
 					sp = append(sp, "::")
 					verifh.Shuffle(r, sp)
 				}
@@ -258,7 +260,7 @@ func c17Config(r *verifh.Rand) c17Gen {
 		for j := 0; j < nl; j++ {
 			b.WriteString("  [[interfaces.dnssl]]\n")
 			var doms string
-			if j > 0 && r.Chance(30) {
+			if j > 0 && r.Chance(10) {
 				doms = prevDomains
 			} else {
 				dp := append([]string(nil), c17Domains...)
@@ -301,16 +303,16 @@ func c17Sources(r *verifh.Rand) *mSources {
 	s.addrs = append(s.addrs, system.IP{Address: netip.MustParsePrefix("fe80::1/64")},
 		system.IP{Address: netip.MustParsePrefix("192.0.2.1/24")},
 		system.IP{Address: netip.MustParsePrefix("2001:db8:77::1/64"), ValidForever: true})
-	if r.Chance(50) {
+	if r.Chance(15) {
 		s.addrs = append(s.addrs, mk("2001:db8:1::5", 64)) // inside a pool prefix
 	}
-	if r.Chance(40) {
-		s.addrs = append(s.addrs, mk("fd00:1::53", 64))
+	if r.Chance(10) {
+		s.addrs = append(s.addrs, mk("fd00:1::53", 64)) // inside a pool prefix
 	}
 	if r.Chance(40) {
 		s.addrs = append(s.addrs, mk("2001:db8:77::2", 64), mk("2001:db8:78::1", 56))
 	}
-	if r.Chance(30) {
+	if r.Chance(10) {
 		s.addrs = append(s.addrs, mk("2001:db8::1", 64)) // a pool RDNSS server
 	}
 	verifh.Shuffle(r, s.addrs)
@@ -321,7 +323,7 @@ func c17Sources(r *verifh.Rand) *mSources {
 	if r.Chance(40) {
 		s.routes = append(s.routes, rt("2001:db8:100:1::/64"), rt("::1/128"), rt("10.0.0.0/8"))
 	}
-	if r.Chance(40) {
+	if r.Chance(12) {
 		s.routes = append(s.routes, rt("2001:db8:ffff::/64")) // also in the static route pool
 	}
 	if r.Chance(30) {
@@ -542,20 +544,20 @@ func (e *c17Env) observe(point string, r *verifh.Rand, inject, routes bool) {
 	// ---- failure injection for this observation
 	var injected []string
 	if inject {
-		for _, ifi := range cfg.Interfaces {
-			if r.Chance(25) {
+		// one failure (sometimes two), anywhere
+		for k := 0; k < 1+r.Intn(100)/70; k++ {
+			ifi := cfg.Interfaces[r.Intn(len(cfg.Interfaces))]
+			switch r.Intn(4) {
+			case 0:
 				st.failFwd[ifi.Name] = true
 				injected = append(injected, "fwd:"+ifi.Name)
-			}
-			if r.Chance(20) {
+			case 1:
 				st.failAuto[ifi.Name] = true
 				injected = append(injected, "auto:"+ifi.Name)
-			}
-			if r.Chance(25) {
+			case 2:
 				e.src[ifi.Name].failAddrs = true
 				injected = append(injected, "addrs:"+ifi.Name)
-			}
-			if r.Chance(20) {
+			case 3:
 				e.src[ifi.Name].failRoute = true
 				injected = append(injected, "routes:"+ifi.Name)
 			}
